@@ -131,6 +131,9 @@ class PairWorld:
             outs = [dec_payment(x)[2] for x in r.out] if r.ok else []
         elif k == "Remove":
             _, c, lp, m1, m2 = op
+            # the view getTokensForGivenPosition is one of C04's observation points: queried in the same state
+            vq = vm.query(self.pair, "getTokensForGivenPosition", [top_u(lp)])
+            self._view_pos = [dec_payment(x)[2] for x in vq.out] if vq.ok else None
             r = vm.call(A[c], self.pair, "removeLiquidity", [top_u(m1), top_u(m2)], [(T[0], 0, lp)])
             outs = [dec_payment(x)[2] for x in r.out] if r.ok else []
         elif k == "SwapIn":
@@ -201,6 +204,7 @@ class PairWorld:
             o["dcaller"] = {t: vm.bal(A[caller], T[t]) - pre_c[t] for t in (1, 2)}
         o["dcoll"] = {t: vm.bal(self.coll, T[t]) - pre_coll[t] for t in (1, 2)}
         o["dothers"] = {f"{u}:{t}": vm.bal(A[u], T[t]) - v for (u, t), v in pre_oth.items() if vm.bal(A[u], T[t]) != v}
+        o["view_pos"] = self.__dict__.pop("_view_pos", None) if k == "Remove" else None
         o["dp2"] = {t: vm.bal(self.pair2, T[t]) - pre_p2[t] for t in (1, 3)}
         q = vm.query(self.pair2, "getReservesAndTotalSupply")
         o["q1"], o["q2"] = from_top_u(q.out[0]), from_top_u(q.out[1])
